@@ -127,6 +127,41 @@ def gen_cases(rng, tier):
         h = ['t5', 'd36', 't2', 'u36', 't%d' % rng.choice([mi - 1, mi, mi + 1, mi + 3, mi + 200]), 'q'] + body + ['q']
         c = {'id': 'c07-chv2-%d' % i, 'cfg': v['cfg'], 'hist': h, 'sub': 'ksim', 'tags': {'kind': 'chords-v2-min-idle'}}
         cases.append(c); extra_pairs.append(c)
+    # several decisions pending at once: tap-holds with different timeouts held together (the later ones wait in extra_waiting while
+    # the first is pending and keep running after it has resolved), started by two keys or by one key through switch fallthrough
+    for i in range(24 if tier == 'quick' else 400):
+        T1, T2 = rng.choice([(100, 500), (500, 100), (60, 61), (30, 300)])
+        conc = rng.choice(['yes', 'yes', 'no'])
+        form = rng.choice(['two-keys', 'one-key-fallthrough'])
+        if form == 'two-keys':
+            cfg = '(defcfg concurrent-tap-hold %s)\n(defsrc a s d)\n(deflayer l0 (tap-hold 0 %d x y) (tap-hold 0 %d z w) c)' % (conc, T1, T2)
+            h = ['t3', 'd30', 't%d' % rng.choice([1, 10]), 'd31', 't%d' % (max(T1, T2) + rng.choice([50, 400])), 'q', 'u30', 't3', 'u31', 't50', 'q']
+        else:
+            cfg = ('(defcfg concurrent-tap-hold %s)\n(defsrc a s d)\n(deflayer l0 (switch () (tap-hold 0 %d x y) fallthrough () (tap-hold 0 %d z w) break) b c)'
+                   % (conc, T1, T2))
+            h = ['t3', 'd30', 't%d' % (max(T1, T2) + rng.choice([50, 400])), 'q', 'u30', 't50', 'q']
+        c = {'id': 'c07-multiwait-%d' % i, 'cfg': cfg, 'hist': h, 'sub': 'ksim', 'tags': {'kind': 'several-pending-decisions'}}
+        cases.append(c); extra_pairs.append(c)
+    # a cancellable macro that holds a key, cancelled by the release of its own key while another physical key stays down (the key
+    # the macro held goes up at the OS one millisecond after the cancellation)
+    for i in range(16 if tier == 'quick' else 300):
+        var = rng.choice(['macro-release-cancel', 'macro-repeat-release-cancel', 'macro-release-cancel-and-cancel-on-press'])
+        body = rng.choice(['S-(x 500 y)', 'C-(400)', 'lalt 300 z'])
+        other = rng.choice([True, True, False])
+        cfg = '(defsrc a s d)\n(deflayer l0 (%s %s) c lsft)' % (var, body)
+        h = ['t3'] + (['d%d' % rng.choice([31, 32]), 't5'] if other else []) + ['d30', 't%d' % rng.choice([20, 50]), 'u30', 't%d' % rng.choice([700, 3000]), 'q',
+                                                                                 'u31', 'u32', 't50', 'q']
+        c = {'id': 'c07-cancelheld-%d' % i, 'cfg': cfg, 'hist': h, 'sub': 'ksim', 'tags': {'kind': 'cancel-with-key-held'}}
+        cases.append(c); extra_pairs.append(c)
+    # an eager tap-dance that is still counting
+    for i in range(16 if tier == 'quick' else 300):
+        T = rng.choice([50, 200])
+        cfg = '(defsrc a s d)\n(deflayer l0 (tap-dance-eager %d (x y z)) b c)' % T
+        h = ['t3']
+        for _ in range(rng.randint(1, 3)):
+            h += ['d30', 't%d' % rng.randint(1, 5), 'u30', 't%d' % rng.choice([5, T - 2, T + 5, 3 * T, 10 * T]), 'q']
+        c = {'id': 'c07-eager-%d' % i, 'cfg': cfg, 'hist': h + ['t50', 'q'], 'sub': 'ksim', 'tags': {'kind': 'eager-tap-dance'}}
+        cases.append(c); extra_pairs.append(c)
     extra_pairs += [c for c in cases if (c.get('tags') or {}).get('kind') == 'key-timing']
     # the processing loop itself: before every millisecond the loop asks can_block_update_idle_waiting; a run that honours the
     # answer (B1: blocked milliseconds run no tick) must be indistinguishable from one that ticks regardless (B0)
